@@ -4,6 +4,7 @@ import (
 	"context"
 	"encoding/json"
 	"fmt"
+	"regexp"
 	"sort"
 	"strings"
 
@@ -51,14 +52,18 @@ type PureCase struct {
 	Reps    int      `json:"reps"`
 }
 
+var addrRE = regexp.MustCompile(`0x[0-9a-f]{6,}`)
+
+// outcome renders what an evaluation produced; heap addresses (which appear when a pointer
+// nested in a struct is formatted into a string) are masked, they are not part of the value.
 func outcome(v interface{}, err error, panicked bool, pv interface{}) string {
 	if panicked {
-		return "PANIC " + fmt.Sprint(pv)
+		return "PANIC " + addrRE.ReplaceAllString(fmt.Sprint(pv), "0xPTR")
 	}
 	if err != nil {
-		return "ERROR " + err.Error()
+		return "ERROR " + addrRE.ReplaceAllString(err.Error(), "0xPTR")
 	}
-	return "VALUE " + obs.SnapshotValues(v)
+	return "VALUE " + addrRE.ReplaceAllString(obs.SnapshotValues(v), "0xPTR")
 }
 
 func evalTree(sc *formula.SourceCode, data val.V) string {
